@@ -212,6 +212,13 @@ func runC05(c *core.Case) {
 		a = genID(r, 0, 35, 0, 35)
 	}
 	b, rel := c05Related(r, a, square)
+	if !square && r.P(0.03) { // f = 0 voxel against a finer below-ground voxel on its footprint: disjoint (floor, not truncation)
+		a, b = truncAliasPair(r)
+		rel = "f0-vs-finer-negative-same-footprint"
+		if r.Bool() {
+			a, b = b, a
+		}
+	}
 	c.Tag("rel-" + rel)
 	if a.F < 0 || b.F < 0 {
 		c.Tag("negative-f")
@@ -327,6 +334,10 @@ func runC05(c *core.Case) {
 	}
 	if r.P(0.01) {
 		c05Confusable(c)
+		return
+	}
+	if r.P(0.03) {
+		c05NearCover(c)
 		return
 	}
 	// list forms (one case in four)
@@ -708,5 +719,108 @@ func c05VeryLong(c *core.Case) {
 	c.Tag("262k-pairs-square-ids")
 	if err2 != nil || g2 != wantSq {
 		c.Fail("overlap-array-262k-pairs", nil, "CheckExtendedSpatialIdsArrayOverlap on 512 x 513 IDs with h == v = %d (one pair has vertical indices exactly 2^z apart): (%v,%v), want %v", z, g2, err2, wantSq)
+	}
+}
+
+// c05NearCover: the first list covers a voxel G except for one cell U, with voxels of mixed depth, complete sets of
+// children standing in for their parent, and parents listed next to their complete children; the second list lies in
+// U (no overlap) or in the covered part (overlap). Implementations that compact complete child sets into parents must
+// not promote G. Judged by the disjunction over all pairs, both argument orders, spatial and extended forms.
+func c05NearCover(c *core.Case) {
+	r := c.R
+	z := r.Range(1, 18)
+	G := ref.ID{H: z, X: edgeIndex(r, pow2(z)), Y: edgeIndex(r, pow2(z)), V: z, F: r.Range(-pow2(z-1), pow2(z-1)-1)}
+	children := func(a ref.ID) []ref.ID { return ref.ChangeOne(a, a.H+1, a.V+1) }
+	// the path from G to the uncovered cell U
+	du := r.Range(1, 2)
+	U := descendant(r, G, z+du, z+du)
+	var cover []ref.ID
+	var expand func(a ref.ID, depth int64)
+	add := func(a ref.ID) {
+		if r.P(0.4) && a.H < z+3 { // complete children instead of (or next to) the voxel itself
+			cover = append(cover, children(a)...)
+			if r.Bool() {
+				cover = append(cover, a)
+			}
+		} else {
+			cover = append(cover, a)
+		}
+	}
+	expand = func(a ref.ID, depth int64) {
+		for _, ch := range children(a) {
+			switch {
+			case ch == U:
+			case ref.Contains(ch, U):
+				expand(ch, depth+1)
+			default:
+				add(ch)
+			}
+		}
+	}
+	expand(G, 0)
+	for i := range cover { // shuffle, a few duplicates
+		j := r.Intn(i + 1)
+		cover[i], cover[j] = cover[j], cover[i]
+	}
+	for k := r.Intn(3); k > 0; k-- {
+		cover = append(cover, cover[r.Intn(len(cover))])
+	}
+	var probe []ref.ID
+	T := U
+	if !r.P(0.6) {
+		T = cover[r.Intn(len(cover))]
+	}
+	d := r.Range(0, 2)
+	probe = append(probe, descendant(r, T, T.H+d, T.V+d))
+	if r.P(0.3) { // an unrelated voxel far away
+		probe = append(probe, ref.ID{H: z, X: (G.X + pow2(z)/2) % pow2(z), Y: G.Y, V: z, F: G.F})
+	}
+	want := false
+	for _, a := range cover {
+		for _, b := range probe {
+			if ref.Overlap(a, b) {
+				want = true
+			}
+		}
+	}
+	l1, l2 := ref.Spatials(cover), ref.Spatials(probe)
+	e1, e2 := ref.Exts(cover), ref.Exts(probe)
+	c.Tag("near-cover-of-a-voxel")
+	c.NonTrivial()
+	keyStrings(c, l1)
+	keyStrings(c, l2)
+	var obs []string
+	c.Desc = func() any {
+		return map[string]any{"scenario": "list 1 covers G except U", "G": G.Spatial(), "U": U.Spatial(), "list1": l1, "list2": l2, "expected": want, "observed": obs}
+	}
+	ok := true
+	for _, a := range append(append([]ref.ID{}, cover...), probe...) {
+		if !inWindow(a) {
+			ok = false
+		}
+	}
+	type form struct {
+		name string
+		f    func(a, b []string) (bool, error)
+		a, b []string
+	}
+	forms := []form{{"CheckExtendedSpatialIdsArrayOverlap", detector.CheckExtendedSpatialIdsArrayOverlap, e1, e2}}
+	if ok {
+		forms = append(forms, form{"CheckSpatialIdsArrayOverlap", detector.CheckSpatialIdsArrayOverlap, l1, l2})
+	}
+	for _, f := range forms {
+		for swap := 0; swap < 2; swap++ {
+			a, b := f.a, f.b
+			if swap == 1 {
+				a, b = b, a
+			}
+			g, err := f.f(a, b)
+			c.Call()
+			obs = append(obs, fmt.Sprintf("%s(swap=%d) = (%v,%v)", f.name, swap, g, err))
+			if err != nil || g != want {
+				c.Fail("overlap-array-near-cover", nil, "%s(%v, %v) = (%v,%v); the pairwise disjunction is %v (list 1 covers %s except %s)", f.name, trunc(a, 40), trunc(b, 8), g, err, want, G.Spatial(), U.Spatial())
+				return
+			}
+		}
 	}
 }
